@@ -104,6 +104,13 @@ claimed.update({
    technique="explicit enumeration of writer outputs x layouts x seeker variants and of declaration cubes / header lines / token strings",
    design="5/C06"),
 })
+claimed.update({
+ "C18": dict(
+   text="Exhaustive enumeration of construction/call histories up to depth 3 over writer.New / reader.New with option sets (quick: 8+5 representative sets, thorough: every subset of the writer's and reader's options), per-call override writes and parses, WriteStream, Store, Retrieve; every history runs from the initial package state in a fresh process; after every step every live instance's observable configuration (format, indent, store/retrieve options, format options) is compared with a struct-copy reference model (documented defaults overlaid with the instance's own constructor options); the format and indent actually used by WriteStream, the options reaching the storage backend and the format options reaching a recording driver are observed too.",
+   note="Trusted: the reference model (defaults: indent 4, empty format, NoClobber false, no format options). SerializeOptions/UnserializeOptions are empty structs whose identity is not observable.",
+   technique="exhaustive enumeration of short constructor/call histories, one fresh process per history, against a struct-copy model",
+   design="5/C18"),
+})
 pending = {}
 all_ids = ["C%02d" % i for i in range(1, 21)]
 checks = []
